@@ -277,6 +277,7 @@ CORPUS = [
     ("pairs", lambda: (("a", 1), ("b", 2))), ("regex", lambda: re.compile("[ab]")),
 ]
 CORPUS_D = dict(CORPUS)
+ADDRESS = re.compile(r"0x[0-9a-fA-F]+")
 LAMBDAS = ["$", "true", "$ > 1", "1", "$1"]
 LAMBDAS_PLAIN = ["$", "true", "1"]
 
@@ -301,7 +302,9 @@ def _alarm(signum, frame):
 def canon(v, depth=0):
     if depth > 6:
         return "deep"
-    if v is None or isinstance(v, (bool, int, str)):
+    if isinstance(v, str):
+        return ["str", ADDRESS.sub("0x", repr(v))]          # str(<object at 0x...>) carries a memory address
+    if v is None or isinstance(v, (bool, int)):
         return [type(v).__name__, repr(v)]
     if isinstance(v, float):
         return ["float", v.hex()]
